@@ -934,14 +934,14 @@ def falsifier_stage(ctx):
     kinds = ["relaxation", "dephasing", "depolarizing", "effective", "leakage", "mixed"]
     det = [c for c in corpus_cases() if c.get("kind") == "det"]
     stat = [c for c in corpus_cases() if c.get("kind") == "stat"]
-    ndet = ctx.n(18, 100)
+    ndet = ctx.n(18, 80)
     for i in range(ndet):
         det.append(gen_det_case(ctx.rng, kinds[i % 6], [2, 3, 2, 2, 3, 4][i % 6] if ctx.thorough() else [2, 3, 2][i % 3],
                                 jump=(i % 4 != 0)))
     # Lindblad noise TOGETHER with badly prepared atoms (state_prep_error > 0): fill_results pads the state to the
     # full register; 3-5 atoms, 1-2 bad, with and without qubit reordering; two levels only (qutrit + bad atom is F-14)
     kinds2 = ["relaxation", "dephasing", "depolarizing", "effective", "mixed"]
-    for i in range(ctx.n(8, 40)):
+    for i in range(ctx.n(8, 25)):
         nt = [3, 4, 5, 4][i % 4]
         det.append(gen_det_case(ctx.rng, kinds2[i % 5], nt, jump=(i % 3 != 0), bad=gen_bad_mask(ctx.rng, nt),
                                 reorder=(i % 2 == 1)))
@@ -950,15 +950,15 @@ def falsifier_stage(ctx):
     for i in range(ctx.n(2, 10)):      # reordering without bad atoms
         det.append(gen_det_case(ctx.rng, kinds2[i % 5], [3, 4][i % 2], jump=True, reorder=True))
     if ctx.thorough():
-        plan = [("relaxation", 2, 1000), ("dephasing", 2, 1000), ("depolarizing", 2, 1000), ("effective", 2, 1000),
-                ("leakage", 2, 1000), ("mixed", 2, 400), ("mixed", 3, 300), ("leakage", 3, 300), ("relaxation", 4, 300)]
+        plan = [("relaxation", 2, 600), ("dephasing", 2, 600), ("depolarizing", 2, 600), ("effective", 2, 600),
+                ("leakage", 2, 600), ("mixed", 3, 300), ("leakage", 3, 300), ("relaxation", 4, 300)]
     else:
         plan = [("mixed", 2, 300), ("leakage", 2, 300), ("effective", 3, 40)]
     for kind, n, M in plan:
         stat.append(gen_case(ctx.rng, kind, n, M, coarse=(M >= 600 or not ctx.thorough())))
     # statistical cases with one badly prepared atom among three (two well-prepared: cheap, exact TDVP step)
     for i in range(ctx.n(1, 2)):
-        stat.append(gen_case(ctx.rng, ["mixed", "relaxation", "effective"][i], 3, ctx.n(250, 600), coarse=True,
+        stat.append(gen_case(ctx.rng, ["mixed", "relaxation", "effective"][i], 3, ctx.n(250, 400), coarse=True,
                              bad=gen_bad_mask(ctx.rng, 3), reorder=(i == 1)))
     worst_det, njump_hist = {}, {}
     for c in det:
@@ -977,7 +977,7 @@ def falsifier_stage(ctx):
     ctx.obligation("harness:scripted runs use the probed qubit ordering", nskip * 4 <= max(1, len(det)),
                    f"{nskip} of {len(det)} scripted trajectories gave no verdict", kind="harness")
     public = [c for c in corpus_cases() if c.get("kind") == "public-run"]
-    public += [gen_public_case(ctx.rng, ctx.n(300, 1000)) for _ in range(ctx.n(1, 2))]
+    public += [gen_public_case(ctx.rng, ctx.n(300, 1000)) for _ in range(1)]
     public += [gen_public_case(ctx.rng, 12) for _ in range(ctx.n(2, 10))]     # cheap: the counting oracle
     ntests = sum(2 * c["n"] for c in stat) + sum(2 * c["n"] for c in public)
     delta = FWER / max(1, ntests)
